@@ -89,6 +89,8 @@ class GW(StoreW):
         # from here on the source's long values belong to a private object only
         src_ops = [op for op in self.ops[tid] if op.get("out") == o.ref and op.get("f") == "C_CreateObject"]
         vals = [e[2] for op in src_ops for e in op["tmpl"] if e[1] == "x" and len(e[2]) >= 24 and e[0] in (K.CKA_VALUE, K.CKA_PRIVATE_EXPONENT, K.CKA_PRIME_1, K.CKA_PRIME_2)]
+        if any(x.ref != o.ref and x.alive and not x.private and self.info.get(x.ref) is self.info.get(o.ref) for x in self.w.objs.values()):
+            vals = []     # another PUBLIC copy of the same source is still alive: the value legitimately stays on disk in the clear
         if self.info.get(o.ref, {}).get("kind") not in ("aes", "generic", "des3", "data", "cert"):
             vals = []     # key-pool values (RSA/EC private parts) are shared by every object made from the same pool entry, public ones included: not "only in a private object"
         for v in vals:
